@@ -132,6 +132,11 @@ Check(r, idx) ==
     (IF r.sc.stale = 1 /\ undisturbed /\ fromFresh # {} THEN <<F(idx, "C11.reload_triggered_by_fresh_entry", fromFresh)>> ELSE <<>>)
     \o (IF undisturbed /\ notCached # {} THEN <<F(idx, "C10.returned_value_not_cached", notCached)>> ELSE <<>>)
     \o (IF undisturbed /\ notSwapped # {} THEN <<F(idx, "C11.result_delivered_before_swap", notSwapped)>> ELSE <<>>)
+    \* C20: load successes plus failures equals the number of loader invocations (at quiescence, nothing hung, no scripted panic:
+    \* a panicking reload on the executor is recovered by the harness's executor, not by the cache)
+    \o (IF r.diag = "" /\ r.hung = 0 /\ pendingCalls = {} /\ r.inflight = 0 /\ (~\E x \in exits : x.err = "panic") /\ Cardinality(enters) > 0
+           /\ Cardinality({x.run : x \in enters}) = Cardinality({x.run : x \in exits}) /\ r.loadsrecorded # r.loaderruns
+        THEN <<F(idx, "C20.loads_recorded_differ_from_loader_runs", <<r.loadsrecorded, r.loaderruns>>)>> ELSE <<>>)
     \o (IF r.diag # "" /\ pendingCalls # {} THEN <<F(idx, "C08.hang", <<r.diag, {c.g : c \in pendingCalls}>>)>> ELSE <<>>)
     \o (IF r.hung = 1 THEN <<F(idx, "C08.later_get_hangs", r.inflight)>> ELSE <<>>)
     \o (IF \E x \in rets : x.err = "timeout" THEN <<F(idx, "C08.refresh_result_missing", {x \in rets : x.err = "timeout"})>> ELSE <<>>)
